@@ -176,13 +176,21 @@ def run_with_preemption(fn_a, fn_b, k, files, funcs=None):
             sys.settrace(None)
             reached.set()
 
+    def body_b():
+        try:
+            res['b'] = ('ok', fn_b())
+        except BaseException as e:  # noqa
+            res['b'] = ('exc', repr(e))
+
     ta = threading.Thread(target=body_a, daemon=True)
+    tb = threading.Thread(target=body_b, daemon=True)
     ta.start()
     reached.wait(60)
-    try:
-        res['b'] = ('ok', fn_b())
-    except BaseException as e:  # noqa
-        res['b'] = ('exc', repr(e))
+    tb.start()
+    # B runs to completion - unless it blocks on a lock that the paused A holds: then A goes on
+    tb.join(0.3)
     resume.set()
     ta.join(60)
-    return res.get('a', ('exc', 'thread A did not finish')), res['b'], state['n']
+    tb.join(60)
+    return (res.get('a', ('exc', 'thread A did not finish')), res.get('b', ('exc', 'thread B did not finish')),
+            state['n'])
